@@ -20,23 +20,26 @@ RULE = ("histories of 2-6 builds over one source path (8 converters x convertibl
 EXT = {"json": "json", "yaml": "yaml", "yamlmulti": "yaml", "toml": "toml", "xml": "xml", "env": "env",
        "flags": "txt", "exec": "sh"}  # from docsite reference/converters.md and `ucg converters`, not from the hook
 CONVERTERS = sorted(EXT)
-PRELUDE = "constraint pr = in 1..10;\n"
+PRELUDE = ("constraint pr = in 1..10;\n"
+           "let keep_set = func (t) => filter(func (k, v) => v != NULL, t);\n"
+           "let upcase_keys = func (t) => map(func (k, v) => [k, v], t);\n")
 
 # value classes: (class name, expression template, expected-convertible hint (only a hint; the probe decides))
 GOOD = {
-    "json": [("tuple", '{a = 1, s = "@U@", l = [1, "x"], n = {e = NULL}}'), ("list", '[1, 2, "@U@"]'),
+    "json": [("filtered_tuple", 'keep_set({a = 1, name = "@U@", gone = NULL})'), ("tuple", '{a = 1, s = "@U@", l = [1, "x"], n = {e = NULL}}'), ("list", '[1, 2, "@U@"]'),
              ("scalar", '"@U@"'), ("empty", '{}')],
     "yaml": [("tuple", '{a = 1, s = "@U@", l = [1, "x"], n = {e = NULL}}'), ("list", '[1, 2, "@U@"]'),
              ("scalar", '"@U@"'), ("empty", '{}')],
     "yamlmulti": [("docs", '[{a = "@U@"}, {b = 2}]'), ("single", '{a = "@U@"}'), ("one", '[{z = "@U@", l = [1, 2, 3]}]'), ("empty_output", '[]')],
     "toml": [("tuple", '{a = 1, s = "@U@", t = {b = "x"}}'), ("list", '[1, "@U@"]'), ("nested", '{t = {u = {v = "@U@"}}, l = [1, 2]}')],
-    "xml": [("doc", '{root = {name = "r", attrs = {a = "@U@"}, children = [{name = "c"}, {text = "hi"}]}}'),
+    "xml": [("filtered_tuple", 'keep_set({root = {name = "r@U@"}, gone = NULL})'), ("doc", '{root = {name = "r", attrs = {a = "@U@"}, children = [{name = "c"}, {text = "hi"}]}}'),
             ("versioned", '{version = "1.1", root = {name = "top@U@", children = [{name = "k", attrs = {x = "1"}}]}}'),
             ("leaf", '{root = {name = "n@U@"}}')],
     "env": [("tuple", '{A = "@U@", B = "x y", N = 1}'), ("quotes", '{Q = "it\'s @U@", T = true}'), ("scalar", '"@U@"'), ("empty_output", '{}')],
-    "flags": [("tuple", '{a = 1, name = "@U@", l = [1, 2], flag = true}'), ("nested", '{out = {dir = "@U@"}, v = NULL}'),
+    "flags": [("filtered_tuple", 'keep_set({a = 1, name = "@U@", gone = NULL})'), ("mapped_tuple", 'upcase_keys({a = 1, name = "@U@"})'),
+              ("tuple", '{a = 1, name = "@U@", l = [1, 2], flag = true}'), ("nested", '{out = {dir = "@U@"}, v = NULL}'),
               ("short", '{n = "@U@"}'), ("empty_output", '{}')],
-    "exec": [("full", '{command = "echo", args = ["@U@", {b = "c"}], env = {X = "1"}}'), ("bare", '{command = "run-@U@"}'),
+    "exec": [("filtered_tuple", 'keep_set({command = "run-@U@", args = ["a"], gone = NULL})'), ("full", '{command = "echo", args = ["@U@", {b = "c"}], env = {X = "1"}}'), ("bare", '{command = "run-@U@"}'),
              ("args", '{command = "printf", args = ["%s", "@U@"]}')],
 }
 BAD = {
@@ -66,7 +69,7 @@ FAULT_KINDS = ["enospc", "eisdir", "efbig"]
 PROBES = ["failed_conversion_over_existing_artifact", "failed_conversion_without_artifact", "streaming_converter_failed_late",
           "torn_first_byte", "torn_middle", "torn_last_byte", "success_after_failure", "two_outs", "error_after_out",
           "foreign_preexisting", "built_from_other_cwd", "built_through_directory_walk", "built_through_dotslash", "source_is_symlink", "companion_built_first", "companion_failed_late", "source_untouched_between_builds", "out_inside_module_body", "companion_built_last", "tmpdir_on_another_file_system",
-          "imports_a_file_with_its_own_out", "equal_value_rendered_earlier_in_other_field_order", "import_between_two_outs"]
+          "imports_a_file_with_its_own_out", "equal_value_rendered_earlier_in_other_field_order", "import_between_two_outs", "companion_in_a_sub_directory"]
 
 TIERS = {
     "quick": {"runs": 640, "wall_cap": 200},
@@ -121,7 +124,7 @@ def generate(rng, tier, idx):
     name_cls, src = rng.weighted([(SRC_NAMES[0], 5), (SRC_NAMES[1], 2), (SRC_NAMES[2], 2), (SRC_NAMES[3], 1), (SRC_NAMES[4], 1)])
     w = {"src": src, "dir": "proj", "abs": rng.chance(25), "cwd": rng.weighted([("proj", 6), ("", 2), ("elsewhere", 2)]),
          "how": rng.weighted([("file", 7), ("dotslash", 1), ("walk_noargs", 1), ("walk_r", 1), ("walk_dir_arg", 1)]),
-         "pre": rng.weighted([("none", 6), ("foreign", 2)]), "others": [], "steps": []}
+         "pre": rng.weighted([("none", 6), ("foreign", 2), ("foreign_binary", 1)]), "others": [], "steps": []}
     # where the process is told to keep temporary files: not at all, inside the project's file system, or on another file system
     w["tmpdir"] = rng.weighted([("unset", 5), ("same_fs", 2), ("other_fs", 2)])
     if name_cls == "symlink":
@@ -209,7 +212,7 @@ def generate(rng, tier, idx):
             cconv = rng.choice(CONVERTERS)
             pool = GOOD[cconv] + BAD[cconv] + [c for c in BAD[cconv] if c[0].startswith("late")] * 3
             ccls, ct = rng.choice(pool)
-            st["companion"] = {"conv": cconv, "cls": ccls, "expr": ct.replace("@U@", "q" + u), "after": rng.chance(40)}
+            st["companion"] = {"conv": cconv, "cls": ccls, "expr": ct.replace("@U@", "q" + u), "after": rng.chance(40), "subdir": rng.chance(40)}
         w["steps"].append(st)
     return w
 
@@ -339,10 +342,10 @@ def execute(world, sb, res):
                 steps.append(dict(st, fault={"kind": "efbig", "n": n}))
         else:
             steps.append(st)
-    if world["pre"] == "foreign":
+    if world["pre"] in ("foreign", "foreign_binary"):
         convs = [o["conv"] for s in steps for o in s["outs"]]
         if convs:
-            sb.write(artifact_path(world, convs[0]), "FOREIGN-" + "x" * 40 + "\n")
+            sb.write(artifact_path(world, convs[0]), ("FOREIGN-" + "x" * 40 + "\n") if world["pre"] == "foreign" else b"\x1f\x8b\x08\x00\xff\xfe caf\xe9 \x00\x01")
             res.probe("foreign_preexisting")
 
     had_failure = False
@@ -413,14 +416,16 @@ def execute(world, sb, res):
         comp = st.get("companion")
         run_argv = argv
         comp_art = comp_ref = None
-        q_rel = os.path.join(os.path.dirname(src_rel), "q_companion.ucg")
+        q_rel = os.path.join(os.path.dirname(src_rel), "qdir" if (comp and comp.get("subdir")) else "", "q_companion.ucg")
         if comp:
             sb.write(q_rel, PRELUDE + "out %s %s;\n" % (comp["conv"], comp["expr"]))
             comp_ref = ref.get(comp["conv"], comp["expr"])
             comp_art = q_rel[:-4] + "." + EXT[comp["conv"]]
             if sb.exists(comp_art):
                 sb.remove(comp_art)
-            q_arg = os.path.join(os.path.dirname(argv[-1]), "q_companion.ucg")
+            q_arg = os.path.join(os.path.dirname(argv[-1]), "qdir" if comp.get("subdir") else "", "q_companion.ucg")
+            if comp.get("subdir"):
+                res.probe("companion_in_a_sub_directory")
             if comp.get("after"):
                 run_argv = argv + [q_arg]
                 res.probe("companion_built_last")
@@ -429,8 +434,10 @@ def execute(world, sb, res):
                 res.probe("companion_built_first")
             if comp_ref is None and comp["cls"].startswith("late"):
                 res.probe("companion_failed_late")
-        elif sb.exists(q_rel):
-            sb.remove(q_rel)
+        else:
+            for stale in (q_rel, os.path.join(os.path.dirname(src_rel), "qdir")):
+                if sb.exists(stale):
+                    sb.remove(stale)
         before = sb.snapshot(world["dir"])
         inv = sb.invoke(run_argv, cwd=cwd, fsize=fsize, env=step_env)
         after = sb.snapshot(world["dir"])
